@@ -3,9 +3,9 @@
  * [0, PAX_MAX] (cap 4095 + the terminator = a 4096-byte object), fully
  * symbolic contents. All three loops (the line loop, the white-space skip,
  * the key scan) are closed by the loop contracts of
- * contracts/loops/C07_w15.tbl; the only unwinding is strcmp() against the two
- * 19-byte literals "GNU.sparse.offset"/"GNU.sparse.numbytes" (complete:
- * unwinding assertion).
+ * contracts/loops/C07_w15.tbl; nothing is unwound. strcmp() of the key against
+ * the two literals "GNU.sparse.offset"/"GNU.sparse.numbytes" is its contract
+ * (key inside the record, any result).
  *
  * Modular, as in the bounded harness pax_loop: find_handler / apply_handler
  * are redirected to their contracts (verified in pax_apply / pax_sparse_map /
@@ -68,14 +68,20 @@ static void w15_free(void *p)
 	g_buf_frees += 1;
 }
 
+static int w15_strcmp(const char *a, const char *b);
+
 #define calloc(n, s) w15_calloc(n, s)
 #define free(p) w15_free(p)
+#define strcmp(a, b) w15_strcmp(a, b)
 #include "lib/tar/src/pax_header.c"
 #undef calloc
 #undef free
+#undef strcmp
 
-/* p points into the record; returns the distance to *a* NUL at or after p
- * inside the record (there always is one: buffer[entsize]) */
+/* p points into the record; returns an upper bound of the distance to the
+ * first NUL at or after p (there always is one inside the record:
+ * buffer[entsize]). The callee contracts below then permit a superset of what
+ * the real functions do - sound, loop-free and without reading the record. */
 static size_t in_record(const char *p)
 {
 	size_t off, len;
@@ -86,8 +92,17 @@ static size_t in_record(const char *p)
 	off = VERIF_POINTER_OFFSET(p);
 	VERIF_ASSUME(off <= g_ent);
 	len = verif_nd_size("strlen");
-	VERIF_ASSUME(len <= g_ent - off && g_buf[off + len] == '\0');
+	VERIF_ASSUME(len <= g_ent - off);
 	return len;
+}
+
+/* strcmp(key, "literal"): requires key inside the record (NUL-terminated
+ * there); any result - both outcomes of every key comparison are explored */
+static int w15_strcmp(const char *a, const char *b)
+{
+	(void)in_record(a);
+	VERIF_ASSERT(b != NULL && !VERIF_SAME_OBJECT(b, g_buf), "C07.pax_unb.strcmp_pre");
+	return verif_nd_int("strcmp");
 }
 
 char *record_to_memory(sqfs_istream_t *fp, size_t size)
